@@ -61,6 +61,7 @@ type CfgCore struct {
 	unexp     int
 	held      Held // unexported; the defaults point HeldP at it
 	HeldP     *Held
+	Chain     []Stage // a recursive type, nested dozens of levels deep
 	Ch        chan int
 	Fn        func()
 	After     int
@@ -136,6 +137,19 @@ func buildHeld(s string) Held {
 	return Held{M: map[string]int{s: len(s)}, L: []string{s, s + "'"}}
 }
 
+// Stage recurses through a slice: a chain of them is as deep as one likes.
+type Stage struct {
+	Labels map[string]int
+	Then   []Stage
+}
+
+func buildChain(depth, seed int) []Stage {
+	if depth <= 0 {
+		return nil
+	}
+	return []Stage{{Labels: map[string]int{"level": depth, "seed": seed}, Then: buildChain(depth-1, seed)}}
+}
+
 type PeerSpec struct {
 	S string `json:"s"`
 	X int    `json:"x"`
@@ -190,6 +204,7 @@ type Part struct {
 	PWhen     *string             `json:"p_when,omitempty"`
 	TU        *string             `json:"tu,omitempty"`
 	Held      *string             `json:"held,omitempty"`
+	Chain     int                 `json:"chain,omitempty"` // depth of the Stage chain (0: unset)
 	NestS     *string             `json:"nest_s,omitempty"`
 	NestN     *int                `json:"nest_n,omitempty"`
 	NestX     *int                `json:"nest_x,omitempty"`
@@ -363,6 +378,9 @@ func fillValue(e reflect.Value, p *Part, owner int) {
 	if p.TU != nil {
 		setPtr(fld("TU"), buildTU(*p.TU))
 	}
+	if p.Chain > 0 {
+		fld("Chain").Set(reflect.ValueOf(buildChain(p.Chain, int(p.ID))))
+	}
 	if p.Held != nil {
 		f := fld("HeldP")
 		h := buildHeld(*p.Held)
@@ -499,6 +517,9 @@ func defaultsFrom(p *Part) *CfgCore {
 	}
 	if p.TU != nil {
 		c.TU = buildTU(*p.TU)
+	}
+	if p.Chain > 0 {
+		c.Chain = buildChain(p.Chain, int(p.ID))
 	}
 	if p.Held != nil {
 		c.held = buildHeld(*p.Held)
